@@ -45,7 +45,7 @@ def render(prog):
             lines += ["for w in " + " ".join(str(st(x)) for x in p["pat"]), "    vmk L%d $w %s" % (i, ARGS), "done"]
         elif k == "if":
             body = "    vmk B%d %d %s" % (i, st(p["st"]), ARGS)
-            if p["st"] == "z" and (i + len(prog)) % 2 == 0:
+            if p["st"] == "z" and ((i + len(prog)) % 2 == 0 or any(q["k"] == "sete" for q in prog)):
                 # a succeeding body line may be a list that recovers from a failure (`fail || ok`): its status is that of the
                 # list; the extra marker Z is not part of the model's events and is filtered out before comparing
                 body = "    vmk Z%d 3 || vmk B%d 0 %s" % (i, i, ARGS)
